@@ -132,3 +132,10 @@ mod tests {
         assert_eq!(do_offset_history(3, 0, &mut scratch), 0);
     }
 }
+
+#[cfg(ruzstd_verif)]
+pub mod verif {
+    pub fn do_offset_history(offset_value: u32, lit_len: u32, scratch: &mut [u32; 3]) -> u32 {
+        super::do_offset_history(offset_value, lit_len, scratch)
+    }
+}
